@@ -43,6 +43,9 @@ pub struct Profile
 	pub wide: bool,
 	/// favour functions with pointer / view parameters and calls to them
 	pub call_heavy: bool,
+	/// chains of declarations without annotation whose type is inferred
+	/// backwards from a later typed use
+	pub infer: bool,
 }
 
 impl Profile
@@ -58,6 +61,14 @@ impl Profile
 			loops: true,
 			wide: true,
 			call_heavy: false,
+			infer: false,
+		}
+	}
+	pub fn exec_with_inference() -> Profile
+	{
+		Profile {
+			infer: true,
+			..Profile::exec()
 		}
 	}
 	pub fn calls() -> Profile
@@ -1118,9 +1129,55 @@ impl<'a, 'c> Gen<'a, 'c>
 			{
 				let ty = self.pick_prim();
 				let name = self.fresh_var("v");
-				let style = self.c.draw(4);
+				let style = if self.profile.infer && ty.is_int() && self.c.chance(1, 5) { 4 } else { self.c.draw(4) };
 				let out = match style
 				{
+					// `var a = 14; var b = a; var x = b + 1; var w: T = x;`: the
+					// types travel backwards from the typed use
+					4 =>
+					{
+						// (the compiler's backward pass covers the statements of the
+						// function body proper; inside nested blocks only chains
+						// of two are observed to be inferred, and E581 documents
+						// that an annotation can be demanded)
+						let at_top = self.scopes.len() <= 3;
+						let n = if at_top { 1 + self.c.draw(6) } else { 1 + self.c.draw(2) };
+						let mut stmts = Vec::new();
+						let mut prev: Option<String> = None;
+						for i in 0..n
+						{
+							let nm = if i + 1 == n { name.clone() } else { self.fresh_var("v") };
+							let init = match &prev
+							{
+								None => lit(self.c.draw(50) as u128, ty),
+								Some(p) =>
+								{
+									let read = Expr::Read(Place::var(p), Ty::Prim(ty));
+									match self.c.draw(3)
+									{
+										0 => read,
+										1 => Expr::Bin(BinOp::Add, Box::new(read), Box::new(lit(self.c.draw(10) as u128, ty)), ty),
+										_ => Expr::Paren(Box::new(read)),
+									}
+								}
+							};
+							stmts.push(Stmt::Var {
+								name: nm.clone(),
+								ty: Ty::Prim(ty),
+								annotate: false,
+								init: Some(init),
+							});
+							prev = Some(nm);
+						}
+						let anchor = self.fresh_var("v");
+						stmts.push(Stmt::Var {
+							name: anchor,
+							ty: Ty::Prim(ty),
+							annotate: true,
+							init: Some(Expr::Read(Place::var(&name), Ty::Prim(ty))),
+						});
+						stmts
+					}
 					// `var x: T; x = e;`
 					3 =>
 					{
